@@ -229,6 +229,14 @@ def run(ctx):
         txt = gen_binop(name, ent[1], ent[2], [pr]) if len(pr) == 2 else gen_unop(name, ent[1], ent[2], [pr[0]])
         add('known_%s' % k, txt, 're-confirm listed finding %s on %s %s' % (k, name, pr), backend='cadical')
         qs[-1].expect = 'fail'; qs[-1].known = 'key=%s %s' % (k, known[k])
+    # short circuit of ?: (the real ternaryOpNode::evaluate with recording leaf doubles)
+    try:
+        Ls = C.lift(ctx, 'C14sc', os.path.join(H, 'wrap_sc.cpp'), ['s_ternary'], libocca=True, models=[os.path.join(H, 'models_sc.c')])
+        qsc = Query('ternary-short-circuit', Ls, os.path.join(H, 'h_sc.c'), [], unwind=6, timeout=300, backend='cadical', desc='c ? t : f on symbolic 64-bit operands: value, and which operands are evaluated')
+        qsc.no_ptr_overflow = True
+        qs.append(qsc)
+    except C.Inconclusive as ex_:
+        ctx.inconclusive.append('short-circuit unit does not lift: %s' % str(ex_)[:300])
     if ctx.only:
         qs = [q for q in qs if re.search(ctx.only, q.name)]
     # known findings: excluded operand-type classes are re-proved without them, and re-confirmed
